@@ -384,8 +384,8 @@ class MergeState(_NoArgs, DisjointUnionStrategy):
     DEFAULTS = dict(ignore_parent=True, inferrable=True, possibly_empty=False, workable=True)
 
     def _target(self, c):
-        if c.atom:
-            return None
+        if c.atom or c.is_empty():
+            return None  # declared not possibly_empty: never applied to an empty class
         row = (c.t.delta[c.q], c.t.acc[c.q])
         for r in range(c.q):
             if (c.t.delta[r], c.t.acc[r]) == row:
@@ -406,6 +406,29 @@ class MergeState(_NoArgs, DisjointUnionStrategy):
 
     def forward_map(self, c, obj, children=None):
         return (obj,)
+
+
+class RotateState(MergeState):
+    """A *one-way* equivalence: a state is sent to the next state (cyclically) with an identical row.  Several states
+    with identical rows give a cycle of one-way rules, which the default rule database has to detect and collapse."""
+
+    DEFAULTS = dict(ignore_parent=False, inferrable=False, possibly_empty=False, workable=True)
+
+    def is_two_way(self, comb_class):
+        return False
+
+    def _target(self, c):
+        if c.atom or c.is_empty():
+            return None
+        row = (c.t.delta[c.q], c.t.acc[c.q])
+        for k in range(1, c.t.S):
+            r = (c.q + k) % c.t.S
+            if (c.t.delta[r], c.t.acc[r]) == row:
+                return r
+        return None
+
+    def formal_step(self):
+        return "rotate to the next identical state (one way)"
 
 
 def swap_table(t):
@@ -589,7 +612,7 @@ class MixFactory(StrategyFactory):
         return "MixFactory"
 
 
-OPTION_NAMES = ("iterative", "inferral", "symmetry", "factory", "factory2", "finite", "finite-mixed", "two")
+OPTION_NAMES = ("iterative", "inferral", "symmetry", "factory", "factory2", "finite", "finite-mixed", "two", "oneway")
 
 
 def mkpack(opts=(), finite=None):
@@ -610,6 +633,10 @@ def mkpack(opts=(), finite=None):
         exp = [exp[0] + [SplitTwo()]]
     # with a factory in the pack the prefix is peeled by the factory's ready rule, not by an initial strategy
     init = [] if ("factory" in opts or "factory2" in opts) else [PeelPrefix()]
+    if "oneway" in opts:
+        # a one-way rule between two classes first (initial strategy), later a two-way rule between the same classes
+        init = init + [RotateState()]
+        exp = exp + [[MergeState(ignore_parent=False)]]
     return StrategyPack(initial_strats=init, inferral_strats=inf, expansion_strats=exp, ver_strats=ver,
                         symmetries=sym, name="reg", iterative="iterative" in opts)
 
@@ -635,7 +662,7 @@ def selftest_table(t, stats_modes=("", "k", "kk", "ku"), N=4):
             assert c.is_empty() == (not any(words(c.t, n, c.q, c.prefix) for n in range(len(c.prefix), len(c.prefix) + c.t.S + 1)) and not c.atom), c
             if not c.is_empty():
                 assert c.minimum_size_of_object() == min(n for n in range(len(c.prefix) + c.t.S + 2) if (c.atom and n == len(c.prefix)) or (not c.atom and words(c.t, n, c.q, c.prefix))), c
-            for strat in (SplitFirst(), SplitTwo(), PeelPrefix(), MergeState()) + ((SwapLetters(),) if not stats else ()):
+            for strat in (SplitFirst(), SplitTwo(), PeelPrefix(), MergeState(), RotateState()) + ((SwapLetters(),) if not stats else ()):
                 kids = strat.decomposition_function(c)
                 if kids is None:
                     continue
